@@ -209,7 +209,16 @@ NAME_SCHEMES = [
     lambda n: [str(7 * i % 11) for i in range(n)],
     lambda n: [3 * i + 1 for i in range(n)],          # integer identifiers
     lambda n: [("Z", "a", "M", "b", "Q", "c")[i] for i in range(n)],
+    # identifiers that are not single characters: numeric strings reaching two digits, ids that are concatenations /
+    # prefixes / substrings of other ids, ids with spaces (separator-free joins and substring tests must not confuse them)
+    lambda n: [("1", "2", "12", "21", "121", "112")[i] for i in range(n)],
+    lambda n: [("1", "2", "3", "12", "10", "11")[i] for i in range(n)],
+    lambda n: [("12", "1", "2", "3", "23", "123")[i] for i in range(n)],
+    lambda n: [("a", "ab", "b", "abb", "ba", "aba")[i] for i in range(n)],
+    lambda n: [("A B", "A", "B", "B A", " A", "A B C")[i] for i in range(n)],
+    lambda n: [("10", "1", "0", "01", "100", "11")[i] for i in range(n)],
 ]
+AWKWARD = list(range(5, 11))      # indices of the awkward-identifier schemes
 
 
 def build_inputs(case, rng=None):
@@ -512,6 +521,58 @@ def sequence_cases(rng, k):
     return [gen_before(rng, gen_case(rng, n=rng.choice([3, 4, 4, 5])), force=True) for _ in range(k)]
 
 
+def large_case(rng):
+    """10 000 - 30 000 ballots from a handful of ballot types, 3-4 candidates, with one- or two-vote margins in the
+    final round and at the elimination(s) before it (so an NEN with a tiny margin is needed)."""
+    n = rng.choice([3, 3, 4])
+    role = rng.sample(range(n), n)            # role[0] wins, role[1] is runner-up, role[2] goes out before, role[3] first
+    W, R1, E1 = role[0], role[1], role[2]
+    N = rng.randint(12000, 35000)
+    m_final, m_elim = rng.choice([1, 2]), rng.choice([1, 2])
+    types = {}
+
+    def add(b, k):
+        if k > 0:
+            types[tuple(b)] = types.get(tuple(b), 0) + k
+
+    # E1 has e votes, R1 has e + m_elim first preferences; E1's ballots split between W and R1 (and exhaust)
+    e = N // 4
+    r1 = e + m_elim
+    t_w, t_r = e // 3 + rng.randint(0, 50), e // 3 + rng.randint(0, 50)
+    w0 = r1 + t_r + m_final - t_w          # final round: w0 + t_w = r1 + t_r + m_final
+    add([W, R1] if rng.random() < 0.5 else [W], w0 // 2)
+    add([W, E1, R1], w0 - w0 // 2)
+    add([R1, W, E1], r1 // 2)
+    add([R1], r1 - r1 // 2)
+    add([E1, W, R1], t_w)
+    add([E1, R1], t_r)
+    add([E1], e - t_w - t_r)
+    if n == 4:
+        E0 = role[3]
+        m0 = rng.choice([1, 2])
+        # E0 is eliminated first, m0 votes below E1; its ballots exhaust (or, sometimes, a few name W last)
+        f = e - m0
+        g = rng.randint(0, 3)
+        add([E0], f - g)
+        add([E0, W], g)
+        if g:                              # keep the final-round margin: give R1 the same number
+            add([R1], g)
+    if rng.random() < 0.3:
+        add([], rng.randint(1, 500))
+    tl = sorted(types.items())
+    nb = sum(k for _, k in tl)
+    bt = list(tl)
+    orders = irv_orders(n, bt, limit=50)
+    winners = sorted({o[-1] for o in orders})
+    winner = winners[0] if rng.random() < 0.85 else rng.randrange(n)
+    hint = None if rng.random() < 0.5 else list(rng.choice(orders))
+    return {"n": n, "names": rng.choice(NAME_SCHEMES)(n), "types": tl, "nocontest": 0,
+            "tot": nb + (rng.randint(1, 100) if rng.random() < 0.3 else 0), "winner": winner,
+            "bp": rng.random() < 0.5, "exact": rng.random() < 0.5, "order": hint, "second": False, "log": False,
+            "tag": f"large/{'right' if winners == [winner] else 'tied' if winner in winners else 'wrong'}/hint-{'true' if hint else 'none'}",
+            "possible_winners": winners}
+
+
 def multisets(items, k):
     return itertools.combinations_with_replacement(items, k)
 
@@ -530,7 +591,9 @@ def exhaustive_cases(max_c=3, max_b=4, winners="all", dfuns=(False, True), hints
                 for w in (range(n) if winners == "all" else [0]):
                     for bp in dfuns:
                         for h in hints:
-                            cases.append({"n": n, "names": NAME_SCHEMES[0](n), "types": tl, "nocontest": 0, "tot": nb,
+                            k = len(cases)
+                            scheme = NAME_SCHEMES[0] if k % 3 else NAME_SCHEMES[AWKWARD[(k // 3) % len(AWKWARD)]]
+                            cases.append({"n": n, "names": scheme(n), "types": tl, "nocontest": 0, "tot": nb,
                                           "winner": w, "bp": bp, "exact": True, "order": h(n) if h else None,
                                           "second": False, "tag": "exhaustive"})
     return cases
@@ -559,6 +622,12 @@ def run_cases(cases, rng=None):
 
 
 # ---------------------------------------------------------------- Coq literals
+def nlit(n):
+    """nat literal; large ones go through Z (no big unary literals in the case files)"""
+    n = int(n)
+    return str(n) if n <= 4000 else f"(Z.to_nat {n}%Z)"
+
+
 def alit(kind, w, l, elim):
     if kind == "NEB":
         return f"NEB {w} {l}"
@@ -566,7 +635,7 @@ def alit(kind, w, l, elim):
 
 
 def types_lit(bt):
-    return C.listlit([f"({C.listlit([str(c) for c in b])}, {k})" for b, k in bt])
+    return C.listlit([f"({C.listlit([str(c) for c in b])}, {nlit(k)})" for b, k in bt])
 
 
 def case_lit(case):
@@ -574,9 +643,9 @@ def case_lit(case):
     if o["out"] is None:
         out = "Malformed"
     else:
-        out = "(Returned " + C.listlit([f"({alit(k, w, l, e)}, {vw}, {vl}, {C.qlit(d)})"
+        out = "(Returned " + C.listlit([f"({alit(k, w, l, e)}, {nlit(vw)}, {nlit(vl)}, {C.qlit(d)})"
                                         for k, w, l, e, vw, vl, d in o["out"]]) + ")"
-    return (f"mkrc {C.listlit([str(i) for i in range(case['n'])])} {types_lit(ballots_of(case))} {case['tot']} "
+    return (f"mkrc {C.listlit([str(i) for i in range(case['n'])])} {types_lit(ballots_of(case))} {nlit(case['tot'])} "
             f"{case['winner']} {C.blit(case['bp'])} {C.blit(case['exact'])} {out}")
 
 
